@@ -100,14 +100,15 @@ EvalSeq(es, i, S) == IF i > Len(es) THEN R2(S, Norm)
                      ELSE LET r == Eval(es[i], S) IN IF ~IsNorm(r) THEN R2(r.S, r.comp) ELSE EvalSeq(es, i + 1, r.S)
 
 \* stores into attribute / subscript targets are observable events; names are reported by the twin afterwards
-RECURSIVE Store(_, _)
+RECURSIVE Store(_, _), Stores(_, _, _)
 Store(t, S) ==
-  CASE t.t = "attr" -> IF Expect(S, "setattr", "") THEN R2(Adv(S), Norm) ELSE R2(S, Drift("setattr"))
+  CASE t.t = "tuple" -> Stores(t.elts, 1, S)
+    [] t.t = "attr" -> IF Expect(S, "setattr", "") THEN R2(Adv(S), Norm) ELSE R2(S, Drift("setattr"))
     [] t.t = "sub" -> LET r == Eval(t.e, S) IN
                       IF ~IsNorm(r) THEN R2(r.S, r.comp)
                       ELSE IF Expect(r.S, "setitem", "") THEN R2(Adv(r.S), Norm) ELSE R2(r.S, Drift("setitem"))
     [] OTHER -> R2(S, Norm)
-RECURSIVE Stores(_, _, _), AllNames(_, _)
+RECURSIVE AllNames(_, _)
 Stores(ts, i, S) == IF i > Len(ts) THEN R2(S, Norm)
                     ELSE LET r == Store(ts[i], S) IN IF ~IsNorm(r) THEN r ELSE Stores(ts, i + 1, r.S)
 AllNames(ts, i) == IF i > Len(ts) THEN <<>> ELSE TargetNames(ts[i]) \o AllNames(ts, i + 1)
@@ -127,7 +128,8 @@ ForLoop(st, S) ==
   IF Expect(S, "next", Str(st.k))
   THEN LET names == TargetNames(st.t)
            S1 == OutAll(Adv(S), "#loop_", names)
-           b == Binds(S1, names)
+           s0 == Store(st.t, S1)                    \* stores into objects among the loop targets (for o.p in ...)
+           b == IF IsNorm(s0) THEN Binds(s0.S, names) ELSE s0
        IN IF ~IsNorm(b) THEN b
           ELSE LET r == Block(st.body, 1, b.S)
                    S2 == IF r.comp.c = "drift" THEN r.S ELSE OutAll(r.S, "#endloop_", names)
